@@ -156,8 +156,8 @@ def run(tier, seed):
     hists = t.printed
     if len(hists) < 50000:
         core.die("only %d histories published" % len(hists))
-    sim = core.tlc_simulate("GlobalCache", "GlobalCache_sim", seconds=15 if tier == "quick" else 120, depth=13, seed=seed,
-                            max_records=3000 if tier == "quick" else 40000, workers=4)
+    sim = core.tlc_simulate("GlobalCache", "GlobalCache_sim", seconds=240 if tier == "quick" else 900, depth=13, seed=seed,
+                            max_records=1500 if tier == "quick" else 40000, workers=4)
     if not sim.ok:
         sys.stderr.write(sim.out[-2000:])
         core.die("simulation: %s" % sim.violation)
